@@ -120,7 +120,24 @@ def run_prop(ctx, pid):
 
 def _history_stage(ctx, pid, sp, pr, cov):
     t1 = time.time()
-    rows, info = pc.run_punish_harness(ctx)
+    henv = {}
+    if ctx.replay:
+        # re-run exactly the recorded schedule on the current tree
+        import json as _json
+        rep = _json.load(open(ctx.replay))
+        sc = (rep.get("detail") or {}).get("script")
+        if isinstance(sc, dict) and sc.get("ops"):
+            path = os.path.join(BUILD, "punish_replay_%s_p%d.json" % (pid, os.getpid()))
+            with open(path, "w") as f:
+                _json.dump({"chan_type": sc["chan_type"], "ops": sc["ops"]}, f)
+            henv["VERIF_CHAN_SCRIPT"] = path
+            henv["VERIF_PUNISH_NOAMT"] = "1" if sc.get("no_amt_data") else "0"
+            if rep.get("seed") is not None:
+                henv["VERIF_SEED"] = str(rep["seed"])
+        else:
+            ctx.note("replay file has no recorded schedule (kind=%s): running the normal check"
+                     % rep.get("kind"))
+    rows, info = pc.run_punish_harness(ctx, env=henv, use_cache=not henv)
     cov["harness"] = info
     if rows is None:
         return
